@@ -4,6 +4,9 @@ import (
 	"fmt"
 	"hash/fnv"
 	"strings"
+
+	"github.com/vektah/gqlparser/v2/ast"
+	"github.com/vektah/gqlparser/v2/lexer"
 )
 
 // Conc maps the abstract symbols of a schema (description "d1", reason
@@ -44,6 +47,57 @@ var descPool = []string{
 	"tab\there %s {brace} #hash",
 }
 
+// TextClassPool: the text classes of spec/MC_Introspect.tla (SliceText): symbols dc_<class> (descriptions),
+// wc_<class> (deprecation reasons), sc_<class> (string defaults) are concretised by a representative of the
+// class; %s is replaced by the symbol. What the class is about is part of the VALUE (blanks at line ends,
+// indentation, blank-only lines, backticks, triple quotes, carriage returns ...), so whatever spelling the
+// renderer chooses (quoted / block string / CRLF line ends) the loaded schema has it and introspection must
+// return it byte for byte.
+var TextClassPool = map[string][]string{
+	"trail":  {"hard break  \nnext %s", "%s two  \nthree   \nend"},
+	"tabend": {"tab at the end\t\nnext %s", "%s\t\n\t\nx"},
+	"lead":   {"first %s\n    indented\nback", "%s\n\tleading tab\nend"},
+	"wsline": {"above %s\n   \nbelow", "%s\n\n \t \nend"},
+	"tick":   {"`tick` ``` %s ```", "%s `", "`%s`\n`"},
+	"tq":     {"three \"\"\" quotes %s", "%s \"\"\"\" four", "x\"\"\"\n\"\"\" %s"},
+	"nonbmp": {"\U0001F600 %s \U0001F9D1\u200d\U0001F680", "%s \U00010348\U0001D11E"},
+	"long":   {strings.Repeat("long ", 1500) + "%s", "%s\n" + strings.Repeat("x", 9000) + "  \nend"},
+	"cr":     {"cr\rinside %s", "%s crlf\r\ninside"},
+	"endsp":  {"%s ends with blanks  ", "%s ends with a tab\t"},
+	"bs":     {"back\\slash \\n is not an escape %s", "%s \\u0041 \\\"", "ends with a backslash %s\\"},
+}
+
+// TextClassNames in a fixed order.
+var TextClassNames = []string{"trail", "tabend", "lead", "wsline", "tick", "tq", "nonbmp", "long", "cr", "endsp", "bs"}
+
+var allClassReps = func() []string {
+	out := []string{}
+	for _, n := range TextClassNames {
+		out = append(out, TextClassPool[n]...)
+	}
+	return out
+}()
+
+// classText: the representative of a class symbol (prefix dc_ / wc_ / sc_), "" if sym is not one.
+func (c *Conc) classText(prefix, sym string) (string, bool) {
+	if !strings.HasPrefix(sym, prefix) {
+		return "", false
+	}
+	p, ok := TextClassPool[strings.TrimPrefix(sym, prefix)]
+	if !ok {
+		return "", false
+	}
+	return fmt.Sprintf(p[c.pick("class:"+sym, len(p))], sym), true
+}
+
+// free symbols (d7, why3 of the seeded generator) draw from the plain pool and, half of the time, from the classes
+func (c *Conc) freeText(kind, sym string, pool []string) string {
+	if c.pick(kind+"-classy:"+sym, 2) == 0 {
+		return fmt.Sprintf(allClassReps[c.pick(kind+":"+sym, len(allClassReps))], sym)
+	}
+	return fmt.Sprintf(pool[c.pick(kind+":"+sym, len(pool))], sym)
+}
+
 func (c *Conc) Desc(sym string) string {
 	if sym == "" {
 		return sym
@@ -51,7 +105,10 @@ func (c *Conc) Desc(sym string) string {
 	if t, ok := c.lookup("desc", sym); ok {
 		return t
 	}
-	return fmt.Sprintf(descPool[c.pick("desc:"+sym, len(descPool))], sym)
+	if t, ok := c.classText("dc_", sym); ok {
+		return t
+	}
+	return c.freeText("desc", sym, descPool)
 }
 
 var reasonPool = []string{"use the other one (%s)", "gone \"soon\": %s", "%s\nsee docs", "%s ü"}
@@ -63,7 +120,10 @@ func (c *Conc) Reason(sym string) string {
 	if t, ok := c.lookup("reason", sym); ok {
 		return t
 	}
-	return fmt.Sprintf(reasonPool[c.pick("reason:"+sym, len(reasonPool))], sym)
+	if t, ok := c.classText("wc_", sym); ok {
+		return t
+	}
+	return c.freeText("reason", sym, reasonPool)
 }
 
 func (c *Conc) URL(sym string) string {
@@ -88,6 +148,9 @@ var strPool = map[string][]string{
 // Str is the concrete string of a string default value.
 func (c *Conc) Str(sym string) string {
 	if t, ok := c.lookup("str", sym); ok {
+		return t
+	}
+	if t, ok := c.classText("sc_", sym); ok {
 		return t
 	}
 	p, ok := strPool[sym]
@@ -123,15 +186,74 @@ func Quote(s string) string {
 	return sb.String()
 }
 
+// blockString spells text as a GraphQL block string (lines indented by indent, terminated by nl) if that
+// is possible: the candidate is read back with gqlparser's lexer and used only when it yields exactly text
+// (block strings cannot hold carriage returns or control characters, lose common indentation and leading /
+// trailing blank lines, and `\"""` is their only escape).
+func blockString(text, indent, nl string, oneLine bool) (string, bool) {
+	if text == "" {
+		return "", false
+	}
+	for _, r := range text {
+		if (r < 0x20 && r != '\n' && r != '\t') || r == 0x7f {
+			return "", false
+		}
+	}
+	esc := strings.ReplaceAll(text, `"""`, `\"""`)
+	var cand string
+	if oneLine && !strings.Contains(esc, "\n") {
+		cand = `"""` + esc + `"""`
+	} else {
+		var sb strings.Builder
+		sb.WriteString(`"""` + nl)
+		for _, l := range strings.Split(esc, "\n") {
+			if l != "" {
+				sb.WriteString(indent + l)
+			}
+			sb.WriteString(nl)
+		}
+		sb.WriteString(indent + `"""`)
+		cand = sb.String()
+	}
+	lx := lexer.New(&ast.Source{Name: "lit", Input: cand})
+	tok, err := lx.ReadToken()
+	if err != nil || tok.Kind != lexer.BlockString || tok.Value != text {
+		return "", false
+	}
+	if end, err := lx.ReadToken(); err != nil || end.Kind != lexer.EOF {
+		return "", false
+	}
+	return cand, true
+}
+
+// Lit spells a text as a GraphQL string literal: quoted, or one of the block-string spellings.
+func (c *Conc) Lit(text, indent string) string {
+	switch c.pick("lit:"+text, 5) {
+	case 1:
+		if b, ok := blockString(text, indent, "\n", true); ok {
+			return b
+		}
+	case 2:
+		if b, ok := blockString(text, indent, "\n", false); ok {
+			return b
+		}
+	case 3:
+		if b, ok := blockString(text, "", "\n", false); ok {
+			return b
+		}
+	case 4:
+		if b, ok := blockString(text, indent, "\r\n", false); ok {
+			return b
+		}
+	}
+	return Quote(text)
+}
+
 func (c *Conc) descLit(text string, indent string) string {
 	if text == "" {
 		return ""
 	}
-	simple := !strings.ContainsAny(text, "\"\\\n\r\t") && strings.TrimSpace(text) == text
-	if simple && c.pick("block:"+text, 2) == 0 {
-		return indent + `"""` + text + `"""` + "\n"
-	}
-	return indent + Quote(text) + "\n"
+	return indent + c.Lit(text, indent) + "\n"
 }
 
 func RenderRef(r TRef) string { return renderRef(r.Wrap, r.Name) }
@@ -153,7 +275,7 @@ func (c *Conc) RenderDflt(d Dflt) string {
 	case "null":
 		return "null"
 	case "str":
-		return Quote(c.Str(d.V))
+		return c.Lit(c.Str(d.V), "      ")
 	case "list":
 		parts := []string{}
 		for _, e := range d.E {
@@ -177,7 +299,7 @@ func (c *Conc) renderDep(d Dep) string {
 	if d.Reason == "" {
 		return " @deprecated"
 	}
-	return " @deprecated(reason: " + Quote(c.Reason(d.Reason)) + ")"
+	return " @deprecated(reason: " + c.Lit(c.Reason(d.Reason), "    ") + ")"
 }
 
 func (c *Conc) renderInput(x InputVal, indent string) string {
